@@ -227,6 +227,9 @@ contract(M + ':Server.put', types={'app': 'Application', 'return': 'Bool'},
                   'clock_now() >= old(clock_now())',
                   # C03 lease clause, against the clock at the start of the call (the check reads it later)
                   'implies(result and app.lease != 0, old(clock_now()) + app.lease < self.valid_until)',
+                  # ... and the expiry granted to a newly placed instance is the lease counted from now
+                  ('C03', 'implies(result and old(app.placement_expiry) is None, '
+                          '        app.placement_expiry == clock_now() + app.lease)', 'lease_from_now'),
                   # C04: a placement adds one to the affinity's counter of the server and of every ancestor
                   ('C04', 'implies(result, forall(lambda r, x: implies(r == self or anc(r, self), '
                           '  r.affinity_counters[x] == old(r.affinity_counters)[x] + '
@@ -290,7 +293,12 @@ contract(M + ':Server.restore', types={'app': 'Application', 'placement_expiry':
 
 contract(M + ':Server.renew', types={'app': 'Application', 'return': 'Bool'},
          ensures=['implies(not result, app.placement_expiry == old(app.placement_expiry))',
-                  'implies(app.lease == 0, result)', 'clock_now() >= old(clock_now())'],
+                  'implies(app.lease == 0, result)', 'clock_now() >= old(clock_now())',
+                  # C03 lease clause for a renewal: granted only if the server is not due for reboot before the lease,
+                  # counted from now, ends - and the lease granted is that one (not a longer one)
+                  ('C03', 'implies(result and app.lease != 0, old(clock_now()) + app.lease < self.valid_until)',
+                   'renew_checked'),
+                  ('C03', 'implies(result, app.placement_expiry == clock_now() + app.lease)', 'lease_from_now')],
          modifies=['clock', 'app.placement_expiry'], props=['C01', 'C03'])
 
 contract(M + ':Server.remove_all', types={},
